@@ -82,6 +82,7 @@ class Scheduler:
         self.line_filter = None
         self.p_stall = 0.0
         self.abandoned_funcs: set[str] = set()
+        self.debug_ring = None
         self.stall_ns: list[int] = []
         self.stalls = 0
         self.abandoned_yields = 0
@@ -153,6 +154,8 @@ class Scheduler:
 
     def _handoff(self, cur: Actor, nxt: Actor, park: bool) -> None:
         self.switches += 1
+        if self.debug_ring is not None:
+            self.debug_ring.append(("handoff", cur.aid, cur.state, nxt.aid, nxt.state, park, self.clock.ns))
         self.hist.add("sw", self.clock.ns, cur.aid, nxt.aid)
         nxt.starve = 0
         self.current = nxt
@@ -338,6 +341,8 @@ class Scheduler:
 
     def finish(self, me: Actor) -> None:
         me.state = "finished"
+        if self.debug_ring is not None:
+            self.debug_ring.append(("finish", me.aid, [(a.aid, a.state) for a in self.actors if a.state != "finished"]))
         self.hist.add("fin", self.clock.ns, me.aid)
         self._wake_due()
         if self.shutting_down:
